@@ -48,6 +48,14 @@ var props = map[string]propCfg{
 			"which keymap an $include inherits/leaves is not stated: included files set their own keymap first and the includer re-issues its own after",
 			"sequences compared modulo Meta-x == ESC x, the one equivalence the library documents",
 		}},
+	"C16": {ID: "C16", Level: "exploration",
+		Tests: []testCfg{{Name: "TestC16", Quick: 6400, Thorough: 160000, QShards: 16, TShards: 16}},
+		Assumptions: []string{
+			"one command per read; convert-meta off so multi-byte text can be typed",
+			"directly consecutive kills may accumulate in the ring (GNU behaviour) or not: both accepted, the statement is silent",
+			"vi: when the deleted characters reach the end of the line the cursor cannot stay at the same point, so put-before is not required to restore there",
+			"known finding multibyte-word excluded by construction (word kills only get ASCII buffers)",
+		}},
 	"C19": {ID: "C19", Level: "exploration",
 		Tests: []testCfg{{Name: "TestC19", Quick: 200000, Thorough: 4000000, QShards: 4, TShards: 16}},
 		Fuzz:  []fuzzCfg{{Name: "FuzzC19Codec", Secs: 90}},
